@@ -212,7 +212,7 @@ func c11Walker(c *eng.Ctx) {
 	}
 	skip := []eng.Guard{
 		eng.G(f, `^w\.Callback == nil$`, true),
-		eng.G(f, `^\(?w\.loc\[.*\]\)? == `+mapKey+`$`, true), // reflectwalk.MapKey
+		eng.G(f, `^\(?w\.loc\[.*\]\)? == `+mapKey+`$`, true),            // reflectwalk.MapKey
 		eng.G(f, `reflect\.\(Value\)\.Kind\(\) == `+strKind+`$`, false), // reflect.String
 		eng.G(f, `^time\.\(\*Time\)\.UnmarshalText\(\) == nil$`, true),
 		eng.G(f, `^slices\.Contains\[.*\]\(\)$`, true),
